@@ -6,6 +6,7 @@
 (* Option, Vec one-or-many, defaults), on an abstract model that has one   *)
 (* field of every kind:                                                    *)
 (*   R  required   O  Option   D  default   V  Vec (one-or-many)           *)
+(*   (R and O also with an empty container as value: "re", "oe")           *)
 (*   X  catch-all (`other`)   tag: /Type "T" (required) or "T?" (optional) *)
 (* A dictionary is a function from keys to abstract values ("-" = absent). *)
 (* Prop A: W(R(W(R(d)))) = W(R(d));  Prop B (catch-all): W(R(d)) keeps     *)
@@ -27,11 +28,11 @@ VARIABLES d,        \* input dictionary
 vars == <<d, phase, x, w1, x2, w2, err>>
 
 Inputs ==
-  [Type : {"T", Absent, "Wrong"}, R : {"r"}, O : {Absent, "o"}, D : {Absent, "dflt", "d"}, V : {Absent, "single", "arr1", "arr2"}, U : {Absent, "u"}]
+  [Type : {"T", Absent, "Wrong"}, R : {"r", "re"}, O : {Absent, "o", "oe"}, D : {Absent, "dflt", "d"}, V : {Absent, "single", "arr1", "arr2"}, U : {Absent, "u"}]
 
 \* reader: dictionary -> typed value (or error)
 Read(dict) ==
-  IF dict.Type = "Wrong" \/ (dict.Type = Absent /\ TagRequired) THEN [ok |-> FALSE]
+  IF dict.Type = "Wrong" \/ (dict.Type = Absent /\ TagRequired) \/ dict.R = Absent THEN [ok |-> FALSE]
   ELSE [ok |-> TRUE, r |-> dict.R, o |-> dict.O,
         dv |-> IF dict.D = Absent THEN "dflt" ELSE dict.D,                      \* absent -> default value
         v  |-> IF dict.V = "single" THEN "arr1" ELSE dict.V,                      \* one-or-many: a single value is a one-element array
@@ -40,7 +41,9 @@ Read(dict) ==
 \* writer: typed value -> dictionary
 Write(val) ==
   [Type |-> "T",                                                                  \* the tag is always written
-   R |-> val.r, O |-> val.o,
+   \* "re" / "oe": a value that is an EMPTY container (empty dictionary, string, array): it is a value, not an absent entry
+   R |-> IF "empty_written_as_null" \in Dev /\ val.r = "re" THEN Absent ELSE val.r,
+   O |-> IF "empty_written_as_null" \in Dev /\ val.o = "oe" THEN Absent ELSE val.o,
    D |-> IF "default_not_written" \in Dev /\ val.dv = "dflt" THEN Absent ELSE val.dv,
    V |-> val.v,                                                                   \* an empty Vec is written as an empty array? no: Absent stays Absent (Null is skipped)
    U |-> IF "writer_drops_other" \in Dev THEN Absent ELSE val.other]
